@@ -182,8 +182,12 @@ def gen_sdl(seed, idx):
     leaf = ("Int", "String", "Float", "Boolean", "ID", "Color", "Date",
             "[Int!]", "String!", "[Color]", "[[Int!]!]!", "[Date]")
     has_if2 = has_if and r.random() < 0.4
+    # interface field arguments of enum / input-object type now and then (the
+    # implementations repeat them)
+    label_args = "(a_int: Int = 1)" if r.random() < 0.5 else \
+        "(a_int: Int = 1, shade: Color = RED, at: Pt, opts: [Opts!])"
     if has_if2:
-        out.append("interface Tagged {\n  label(a_int: Int = 1): String\n}")
+        out.append("interface Tagged {\n  label%s: String\n}" % label_args)
     members = []
     for i, o in enumerate(objs):
         impl = has_if and r.random() < 0.6
@@ -193,7 +197,7 @@ def gen_sdl(seed, idx):
             fields.append("  id: ID!")
             members.append(o)
         if impl2:
-            fields.append("  label(a_int: Int = 1): String")
+            fields.append("  label%s: String" % label_args)
         for j in range(1 + r.randrange(3)):
             t = r.choice(leaf + tuple(objs) + (("Node",) if has_if else ()))
             if t in objs or t == "Node":
